@@ -65,7 +65,7 @@ CLAIMS = {
    text='Decides: authenticated is the conjunction of its four inputs (16 combinations), Profile truth is id and name present; each operation posts the documented endpoint and payload keys from the documented sources; every store to token fields is dominated by the raise-on-error call; _raise_from_response returns only on OK and every other path raises with status_code set; validate true only on 204; join guarded by authenticated. Text taken from the reply is only ever a formatting argument, never part of a format string.',
    note='Real HTTP encoding and requests behaviour are not decided.', ref='3/C19'),
  'C20': dict(cat='other', tech='effect/guard relations on the path summaries of the tracker apply methods and record/vector helpers; alias descriptors applied symbolically (continuation summaries); exhaustive constant folding of name_from_value over the library\'s enums',
-   text='Narrow claim: only AddPlayerAction inserts into the player table, updates use a non-raising lookup and store under a guard, removal is guarded; each position axis adds under its protocol flag bit and overwrites otherwise, angles wrap last; map patch indexes with packet width / map stride / offset x,z; the descriptor each alias factory returns, applied to self, reads / stores / deletes exactly the aliased attribute path (transforms in the right direction); eq and hash enumerate the same slots, which are a pure function of the own MRO of the class (no cache a subclass could inherit) and the hash never goes through the text or identity of a value, on any returning path; vector operators preserve type and pair components; every alias factory use site passes attribute names where names belong; name_from_value is folded over its whole finite domain (every enum class of the library; for flag enums every value 0..255): a printed name parses back to the value, a union of flags has a name, a plain member is named by a member holding it.',
+   text='Narrow claim: only AddPlayerAction inserts into the player table, updates use a non-raising lookup and store under a guard, removal is guarded; each position axis adds under its protocol flag bit and overwrites otherwise, angles wrap last; map patch indexes with packet width / map stride / offset x,z; the descriptor each alias factory returns, applied to self, reads / stores / deletes exactly the aliased attribute path (transforms in the right direction); eq and hash enumerate the same slots, which are a pure function of the own MRO of the class (no cache a subclass could inherit) and the hash never goes through the text or identity of a value, on any returning path; vector operators preserve type and pair components, and refuse an operand by isinstance against Vector itself, nothing narrower; every alias factory use site passes attribute names where names belong; name_from_value is folded over its whole finite domain (every enum class of the library; for flag enums every value 0..255): a printed name parses back to the value, a union of flags has a name, a plain member is named by a member holding it.',
    note='Tracker state after a history, enums generated at run time and numeric vector results are value-level: not applicable to static analysis.', ref='3/C20'),
 }
 
